@@ -928,3 +928,22 @@ pub fn model_case(acc: &mut Acc, reg: &Registry, prop: &str, s: &dyn Subject, ca
     }
     run
 }
+
+
+/// Answer policies by kind of decision (they reach answer combinations that index-based random scripts
+/// only hit by luck: "Continue to ordinary reports but Break to conversion errors", "only hand-overs
+/// stop", "only the field-level error type stops", ...).
+pub fn policies() -> Vec<Script> {
+    let p = |r: &[&str], m: bool, e: Option<u8>| Script::Policy { reports: r.iter().map(|s| s.to_string()).collect(), merges: m, ety: e };
+    vec![
+        p(&["foreign"], false, None),
+        p(&[], true, None),
+        p(&["kind", "missing", "unknown_key", "unknown_value", "bad_len", "unexpected"], false, None),
+        p(&["missing"], false, None),
+        p(&["unknown_key", "unexpected"], false, None),
+        p(&["kind", "bad_len"], false, None),
+        p(&["kind", "missing", "unknown_key", "unknown_value", "bad_len", "unexpected", "foreign"], false, Some(1)),
+        p(&[], true, Some(1)),
+        p(&["foreign"], true, Some(0)),
+    ]
+}
